@@ -34,6 +34,7 @@ var skeletonFuncs = [][3]string{
 	{"db.go", "DB", "ReleaseRemoteHaltLock"},
 	{"db.go", "DB", "CheckpointNoLock"},
 	{"db.go", "DB", "rollbackJournal"},
+	{"db.go", "DB", "rollbackJournalSegment"},
 	{"db.go", "DB", "recover"},
 	{"db.go", "DB", "maxLTXFile"},
 	{"db.go", "DB", "checksum"},
@@ -47,6 +48,70 @@ var skeletonFuncs = [][3]string{
 	{"store.go", "Store", "restoreDBFromBackup"},
 	{"internal/chunk/chunk.go", "Writer", "Write"},
 	{"internal/chunk/chunk.go", "Reader", "Read"},
+	// second batch
+	{"db.go", "DB", "Open"},
+	{"db.go", "DB", "initFromDatabaseHeader"},
+	{"db.go", "DB", "initDatabaseFile"},
+	{"db.go", "DB", "syncWALToLTX"},
+	{"db.go", "DB", "Checkpoint"},
+	{"db.go", "DB", "TruncateWAL"},
+	{"db.go", "DB", "RemoveWAL"},
+	{"db.go", "DB", "CreateJournal"},
+	{"db.go", "DB", "WriteJournalAt"},
+	{"db.go", "DB", "readPage"},
+	{"db.go", "DB", "Export"},
+	{"db.go", "DB", "WriteSnapshotTo"},
+	{"db.go", "DB", "AcquireWriteLock"},
+	{"db.go", "DB", "TryAcquireWriteLock"},
+	{"db.go", "DB", "WaitPosExact"},
+	{"db.go", "DB", "unsetRemoteHaltLock"},
+	{"db.go", "DB", "HasHaltLock"},
+	{"store.go", "Store", "monitorLease"},
+	{"store.go", "Store", "acquireLeaseOrPrimaryInfo"},
+	{"store.go", "Store", "monitorLeaseAsReplica"},
+	{"store.go", "Store", "Recover"},
+	{"store.go", "Store", "EnforceRetention"},
+	{"store.go", "Store", "streamBackup"},
+	{"store.go", "Store", "streamBackupDBSnapshot"},
+	{"store.go", "Store", "CreateDB"},
+	{"store.go", "Store", "CreateDBIfNotExists"},
+	{"backup_client.go", "FileBackupClient", "PosMap"},
+	{"backup_client.go", "FileBackupClient", "pos"},
+	{"backup_client.go", "FileBackupClient", "WriteTx"},
+	{"backup_client.go", "FileBackupClient", "FetchSnapshot"},
+	{"client.go", "", "ReadStreamFrame"},
+	{"client.go", "", "WriteStreamFrame"},
+	{"client.go", "LTXStreamFrame", "ReadFrom"},
+	{"client.go", "LTXStreamFrame", "WriteTo"},
+	{"client.go", "DropDBStreamFrame", "ReadFrom"},
+	{"client.go", "DropDBStreamFrame", "WriteTo"},
+	{"client.go", "HandoffStreamFrame", "ReadFrom"},
+	{"client.go", "HandoffStreamFrame", "WriteTo"},
+	{"client.go", "HWMStreamFrame", "ReadFrom"},
+	{"client.go", "HWMStreamFrame", "WriteTo"},
+	{"client.go", "HeartbeatStreamFrame", "ReadFrom"},
+	{"client.go", "HeartbeatStreamFrame", "WriteTo"},
+	{"http/http.go", "", "ReadPosMapFrom"},
+	{"http/http.go", "", "WritePosMapTo"},
+	{"http/proxy_server.go", "ProxyServer", "serveHTTP"},
+	{"http/proxy_server.go", "ProxyServer", "serveRead"},
+	{"http/proxy_server.go", "ProxyServer", "serveNonRead"},
+	{"http/proxy_server.go", "ProxyServer", "proxyToTarget"},
+	{"http/proxy_server.go", "ProxyServer", "isWriteRequest"},
+	{"http/proxy_server.go", "ProxyServer", "isPassthrough"},
+	{"http/proxy_server.go", "ProxyServer", "isAlwaysForwarded"},
+	{"http/server.go", "Server", "serveHTTP"},
+	{"http/server.go", "Server", "handlePostImport"},
+	{"http/server.go", "Server", "handleGetExport"},
+	{"http/server.go", "Server", "handlePostHalt"},
+	{"http/server.go", "Server", "handleDeleteHalt"},
+	{"http/server.go", "Server", "handlePostPromote"},
+	{"http/server.go", "Server", "handlePostHandoff"},
+	{"http/server.go", "Server", "handlePostTx"},
+	{"http/server.go", "Server", "handlePostStream"},
+	{"http/server.go", "Server", "streamDB"},
+	{"http/server.go", "Server", "streamLTX"},
+	{"http/server.go", "Server", "streamLTXSnapshot"},
 }
 
 // genSkeletons renders, for each listed function, its control skeleton in source order:
@@ -66,6 +131,9 @@ func genSkeletons(repo string) []byte {
 			cache[e[0]] = f
 		}
 		name := e[1] + "_" + e[2]
+		if e[1] == "" {
+			name = "fn_" + e[2]
+		}
 		fd := findFunc(f, e[1], e[2])
 		if fd == nil || fd.Body == nil {
 			fmt.Fprintf(&b, "def %s : List (String × String) := []\n\n", name)
